@@ -177,7 +177,14 @@ def exc_in_lark(tb_text):
     import re
     files = re.findall(r'File "([^"]+)"', tb_text or '')
     # (a stand-alone module generated by lark.tools.standalone is lark's code too: the C11 harness writes it to <tmp>/larkverif_c11_*/sa_mod.py)
-    return bool(files) and ('/lark/' in files[-1] or '/sa_mod.py' in files[-1]) and '/harness/' not in files[-1]
+    if not files or '/harness/' in files[-1]:
+        return False
+    if '/lark/' in files[-1] or '/sa_mod.py' in files[-1]:
+        return True
+    # raised inside a library lark called (re, interegular, pickle, ...): the exception escaped from lark's code all the same —
+    # some lark frame lies between the harness and the raising frame
+    last_harness = max([i for i, f in enumerate(files) if '/harness/' in f] or [-1])
+    return any('/lark/' in f or '/sa_mod.py' in f for f in files[last_harness + 1:])
 
 
 class InfraError(Exception):
